@@ -5,7 +5,7 @@ Correspondence stream `c13` (one engine, request kinds `scale`, `poly`, `elem`, 
 * `scale`  — the real `scale` / `center` / `standardize` as a caller reaches them: arguments written positionally, by
   keyword or defaulted (also ill-formed lists: `TypeError`), data in every container and storage type (ndarray, list,
   pandas / narwhals Series, `scipy.sparse` matrix with one column — or with 0/2/3: `ValueError`; float64, int64,
-  int32), an explicit `_state` dict threaded through a fitting call and follow-up calls (or `model_matrix` +
+  int32, uint8/16/32/64 and bool holding numbers that need the full width of the type), an explicit `_state` dict threaded through a fitting call and follow-up calls (or `model_matrix` +
   `model_spec.get_model_matrix` on a pandas frame / arrow table), against `Model.ScaleEntry.call` at `Rat` (binding
   against the signatures regenerated from the live functions, sparse dispatch, then `Model.Scale.run`).  `numpy.sqrt`
   is a parameter of the model: the harness forwards the recorded float `scale` and checks the contract
@@ -30,7 +30,12 @@ Correspondence stream `c13` (one engine, request kinds `scale`, `poly`, `elem`, 
   `ModelSpec.get_model_matrix`, `Formula.get_model_matrix`, `model_matrix(spec, data)` with the names captured from
   the calling frame, or `stateful_eval` with a shared state mapping (data as a Series or a one-column sparse matrix) —
   fitted on one vector, replayed on 1..2 follow-up vectors.  The recorded state and every output are compared with the
-  model run on the same history.
+  model run on the same history.  The data column is `x` or a BACK-QUOTED name (Python keyword, identifier that NFKC
+  changes, non-identifier, plain identifier), stored as float64 or an unsigned / logical type, and every data set of
+  the history may carry UNUSED columns named like the stand-ins the library can pick for the name (`class_1`, `_class`,
+  `a_b`, `_`, the NFKC form …): the key the library keeps the state under is compared, on every data set, with
+  `Model.TransformKey.stateKey` (the sanitiser of C15's `Model.PyAlias` + the restoration loop of `stateful_eval`;
+  CPython's unparser / `str.isidentifier` / `\\w` enter as data), which is proved not to depend on the other names.
 
 Oracle (implementation alone): mean≈0 / std≈1 on the fitting data (std about the chosen centre when `center` is
 `False` or a number) whatever container / integer type holds the numbers, follow-up data transformed with the recorded
@@ -42,7 +47,10 @@ output alone, so a transform that is silently re-fitted is pinned whatever was r
 """
 from __future__ import annotations
 
+import keyword
 import math
+import re
+import unicodedata
 from fractions import Fraction
 
 import numpy
@@ -86,6 +94,8 @@ REQUIRED_THEOREMS = [
     "Q_reads_data_layer",
     "Treatment_is_treatment_base",
     "identity_id",
+    "state_key_of_call",
+    "state_key_ignores_other_columns",
 ]
 TRUSTED = [
     "modelled, not verified: numpy.sqrt (parameter `sqrt` of the model with contract sqrt(v)^2 = v, checked per case "
@@ -97,16 +107,23 @@ TRUSTED = [
     "numpy yields nan/inf on division by zero without raising; the model reports that outcome as `nonFinite` "
     "(zero variance, ddof = n, fewer distinct values than degree + 1)",
     "numpy.array(data) / data.toarray()[:, 0] turn every container (list, Series, narwhals Series, one-column scipy.sparse "
-    "matrix in csc/csr/coo format; float64, int64, int32 storage) into the vector of the numbers it holds: the model "
-    "receives that vector (`Data.dense` / `Data.sparse`), the conversion itself is numpy's / scipy's",
+    "matrix in csc/csr/coo format; float64, int64, int32, uint8, uint16, uint32, uint64, bool storage) into the vector of "
+    "the numbers it holds: the model receives that vector (`Data.dense` / `Data.sparse`), the conversion itself "
+    "(and `astype(float64)` of an integer / logical array) is numpy's / scipy's; that the arithmetic is then done on the "
+    "numbers and not in the storage type is observed on vectors whose squares / differences / powers leave the type",
     "the translator's classification of the TRANSFORMS entries (harness/translate.py `_classify_preloaded`: object "
     "identity for named objects, exact probes for anonymous callables) that Gen/TransformTable.lean records",
     "the dict-valued-data rule of the stateful_transform wrapper is not modelled here (it is C04's); the dict insertion "
     "order of poly's alpha/norms2 memo is not modelled",
-    "stateful_eval's AST rewriting (which call nodes are given `_state`, the key they are recorded under) is not "
-    "modelled: the model is the transform with an explicit state; the route `ref` observes on every run that, for each "
-    "spelling of the callee / position / entry point generated, the library-kept state and the follow-up outputs equal "
-    "those of the model run with the state threaded explicitly",
+    "stateful_eval's AST rewriting (which call nodes are given `_state`) is not modelled: the model is the transform "
+    "with an explicit state; the route `ref` observes on every run that, for each spelling of the callee / position / "
+    "entry point / column name generated, the library-kept state and the follow-up outputs equal those of the model run "
+    "with the state threaded explicitly.  The KEY the state is recorded under is modelled for a call with one "
+    "back-quoted column (Model/TransformKey.lean on top of C15's Model/PyAlias.lean, imported unchanged): CPython's "
+    "`ast.unparse` of the call node (as the text around the stand-in), `str.isidentifier` + NFKC stability of the name "
+    "and the non-ASCII `\\w` characters are parameters sent by the harness; the contract of the unparser parameter "
+    "(stand-in between non-word characters, no word that the source does not have) is asserted per case; the stand-in "
+    "itself is not observable from outside and is not compared",
     "Contrasts.codingColumnNames / LayeredMapping layer trees are the models of C11 / C19 (imported unchanged); "
     "`LayeredMapping.named_layers` is modelled here (Model/PatsyCompat.lean) and tied by the `Q` stream",
 ]
@@ -116,18 +133,25 @@ ASSUMPTIONS = [
     "the reals this is proved equivalent to: more than `degree` distinct non-missing values (poly_finite_iff_distinct)",
     "exp_log_inverse: log(exp y) = y for all y, exp(log x) = x for x > 0",
     "poly_nan_insert: the insertion position is at most the length of the vector",
+    "state_key_of_call / state_key_ignores_other_columns: the expression has one back-quoted name (text, name, text); the "
+    "unparsed call is pre ++ stand-in ++ post with the stand-in between non-word characters and every word of pre/post a "
+    "word of the source; ASCII identifiers are identifiers and ASCII word characters are word characters for CPython",
 ]
 RULE = (
     "scale: fn in {scale, center, standardize} (possibly another of the three on each follow-up call) x written "
     "arguments: each of center/scale|rescale/ddof positional, by keyword or defaulted, value in {True, False, number} "
     "(ddof also as a bool), 10% ill-formed (unknown / foreign keyword, too many positionals, a parameter twice) x "
     "container in {ndarray, list, pandas Series, narwhals Series, scipy.sparse csc/csr/coo with 1 column (a vector) or "
-    "0/2/3 columns (ValueError)} x storage float64/int64/int32 x fitting vector (integers or dyadic rationals, length "
-    "2..30, magnitude <= 2^20, occasionally constant; 40% times 2^e, e in -60..60; 12% integers m*2^e whose squares "
-    "overflow the integer type they are stored in) x 0..2 follow-up calls with other data AND other arguments (must be "
+    "0/2/3 columns (ValueError)} x storage float64/int64/int32/uint8/uint16/uint32/uint64/bool x fitting vector (integers "
+    "or dyadic rationals, length 2..30, magnitude <= 2^20, occasionally constant; 40% times 2^e, e in -60..60; 12% "
+    "integers m*2^e whose squares overflow the integer type they are stored in; 18% unsigned / logical storage with the "
+    "top bit of the type in use - anywhere in the range, upper half only, m*2^(w-4), the two ends - and then mostly "
+    "center=False or a number: a data value, half the maximum, a small or negative integer, a dyadic rational) "
+    "x 0..2 follow-up calls with other data AND other arguments (must be "
     "ignored), optional pre-seeded _state, route direct or through model_matrix/model_spec on a pandas frame or an "
-    "arrow table (float or int64 column); poly: degree 0..6 (also negative, also written True) x raw (also written 0/1) "
-    "x spelling positional/keyword/default x ill-formed calls x container/storage as above x NaN rows x follow-ups "
+    "arrow table (float or integer / unsigned / bool column, arguments written in the formula); poly: degree 0..6 (also negative, also written True) x raw (also written 0/1) "
+    "x spelling positional/keyword/default x ill-formed calls x container/storage as above (15% unsigned / logical "
+    "storage needing the full width, 60% of those raw=True) x NaN rows x follow-ups "
     "(same, lower and too-high degree) incl. vectors with too few distinct values, column names / formula labels; "
     "ref (state kept by the library): transform in "
     "{scale, center, standardize, poly} x callee spelling in {preloaded name, alias name, module attribute, dotted package "
@@ -137,7 +161,11 @@ RULE = (
     "the caller's frame, stateful_eval with one shared state mapping (data as a Series or a one-column sparse matrix)} "
     "x output pandas/numpy x written arguments positional or keyword "
     "(center/scale flag or number, ddof in {0,1,2,1/2,n}; degree 1..5, raw) x fitting vector (as above, 30% scaled by 2^e) "
-    "x 1..2 follow-up vectors; elem: every name of the model table x storage type "
+    "x 1..2 follow-up vectors x column name in {x (55%), back-quoted: 12 Python keywords, 8 identifiers that NFKC changes, "
+    "13 non-identifiers, 6 plain identifiers} with 0..3 unused columns per data set (30% of fitting sets, 85% of follow-up "
+    "sets) named like the stand-ins of that name (base, base_1..3, _base, base_, NFKC form, _formulaic_base) x column "
+    "storage float64 (80%) or uint8/16/32/64/bool needing the full width (then mostly center=False / a number; poly raw "
+    "50%); elem: every name of the model table x storage type "
     "float64/int64/int32 x every probe index the type can hold (exp10: 10^k for k = -5..30 incl. negative and >= 19) x "
     "container in {ndarray, Python scalar, numpy scalar, 0-d array, list, Series (index kept), narwhals Series} for direct "
     "calls and {pandas frame, arrow table} through model_matrix, plus random dyadic and random integer-typed probes; "
@@ -300,12 +328,15 @@ def effective(call):
     return d
 
 
-def rand_written(rng, fn, n):
-    """a well-formed argument list: each parameter written positionally, by keyword, or left to its default"""
+def rand_written(rng, fn, n, force=None):
+    """a well-formed argument list: each parameter written positionally, by keyword, or left to its default
+    (`force`: parameter -> value that is written in any case)"""
     params = WRITTEN_PARAMS[fn]
     vals = {}
     for p in params:
-        if rng.random() < 0.75:
+        if force and p in force:
+            vals[p] = force[p]
+        elif rng.random() < 0.75:
             if p == "ddof":
                 vals[p] = rng.choice([fr(0), fr(1), fr(1), fr(2), fr(Fraction(1, 2)), fr(n), fr(n + 1), True, False])
             else:
@@ -340,8 +371,12 @@ def int_storable(vec, dtype):
     return all(Fraction(v).denominator == 1 and lo <= Fraction(v).numerator <= hi for v in vec)
 
 
-def boxed(rng, call, vec, allow_sparse=True):
-    """choose container and storage type for the vector `vec` of a call"""
+def boxed(rng, call, vec, allow_sparse=True, dtype=None):
+    """choose container and storage type for the vector `vec` of a call (`dtype`: the storage type is given)"""
+    if dtype is not None:
+        call["container"] = rng.choice([k for k in CONTAINERS if k != "sparse"])
+        call["dtype"] = dtype
+        return
     kind = rng.choice(CONTAINERS if allow_sparse else [k for k in CONTAINERS if k != "sparse"])
     call["container"] = kind
     if kind == "sparse":
@@ -351,8 +386,53 @@ def boxed(rng, call, vec, allow_sparse=True):
             [fr(Fraction(rng.randint(-9, 9))) if rng.random() < 0.6 else fr(0) for _ in vec] for _ in range(ncols)]
         call["cols"] = cols
         return
-    dtypes = ["float64", "float64"] + [d for d in ("int64", "int32") if int_storable(vec, d)]
+    dtypes = ["float64", "float64"] + [d for d in INT_TYPES if int_storable(vec, d)]
     call["dtype"] = rng.choice(dtypes)
+
+
+def unsigned_vector(rng, n, dtype, kinds=("rand", "rand", "top", "steps", "ends")):
+    """non-negative integers that NEED the storage type `dtype` (an unsigned width, or bool): at least one value has
+    the top bit set, so squares, sums and differences of the stored numbers leave the range of the type (for uint8
+    already from 16 on).  Every value is exact in binary floating point (uint64: multiples of 2^11), and the spread
+    is comparable to the magnitude, so the comparisons stay relative to the size of the data."""
+    if dtype == "bool":
+        v = [rng.randint(0, 1) for _ in range(n)]
+        if len(set(v)) < 2 and rng.random() < 0.9:
+            v[0], v[-1] = 1, 0
+        return [fr(x) for x in v]
+    w = WIDTH[dtype]
+    unit = 2 ** 11 if w == 64 else 1  # keeps 64-bit values exact as floats
+    top = 2 ** w // unit
+    kind = rng.choice(list(kinds))
+    if kind == "rand":  # anywhere in the range
+        v = [rng.randrange(top) for _ in range(n)]
+    elif kind == "top":  # the upper half only: every value has the top bit set
+        v = [rng.randrange(top // 2, top) for _ in range(n)]
+    elif kind == "steps":  # m * 2^(w-4), m < 16
+        v = [rng.randrange(16) * (top // 16) for _ in range(n)]
+    else:  # the two ends of the range
+        v = [rng.choice([0, 1, top - 1, top - 2, top // 2]) for _ in range(n)]
+    if max(v) < top // 2:
+        v[rng.randrange(n)] = rng.randrange(top // 2, top)
+    if max(v) - min(v) < top // 64:  # spread comparable to the magnitude (and never a constant vector)
+        v[0] = (v[-1] + top // 2) % top
+    return [fr(x * unit) for x in v]
+
+
+def unsigned_center(rng, vec):
+    """a number written for `center` next to unsigned data: one of the data values, a small or a negative integer,
+    a dyadic rational, the middle of the range"""
+    vals = [Fraction(v) for v in vec]
+    r = rng.random()
+    if r < 0.3:
+        return fr(rng.choice(vals))
+    if r < 0.5:
+        return fr(max(vals) // 2 or 1)
+    if r < 0.7:
+        return fr(rng.choice([1, 2, 3, 7, 100]))
+    if r < 0.85:
+        return fr(-rng.choice([1, 3, 16, 200]))
+    return fr(Fraction(rng.randint(1, 64), rng.choice([2, 4])))
 
 
 def big_int_vector(rng, n, dtype=None):
@@ -377,11 +457,19 @@ def gen_scale(rng):
     if rng.random() < 0.2:
         route = "formula"
         ncalls = 2
+    # unsigned / logical storage (numpy arrays, lists of numpy scalars, Series): the numbers need the full width of
+    # the type, so arithmetic done IN the type would wrap around; mostly with the centre switched off or given
+    # (through a formula: a data-frame column / arrow array of that type)
+    ustore = rng.choice(UNSIGNED + UNSIGNED + ["bool"]) if rng.random() < 0.18 else None
     for i in range(ncalls):
         kind0 = rng.choice(["small", "big", "dyadic", "offset"]) if route == "formula" else None
         fni = fn if (route == "formula" or rng.random() < 0.8) else rng.choice(["scale", "center", "standardize"])
         c = dict(fn=fni, data=rand_vector(rng, kind=kind0 if i == 0 else rng.choice(["small", "big", "dyadic"])))
-        if route == "direct" and rng.random() < 0.12:
+        udtype = None
+        if ustore and (i == 0 or route == "formula" or rng.random() < 0.7):
+            udtype = ustore if (i == 0 or route == "formula" or rng.random() < 0.7) else rng.choice(UNSIGNED + ["bool"])
+            c["data"] = unsigned_vector(rng, len(c["data"]), udtype)
+        elif route == "direct" and rng.random() < 0.12:
             c["data"] = big_int_vector(rng, len(c["data"]))
         if route == "direct":
             n = len(c["data"])
@@ -389,12 +477,17 @@ def gen_scale(rng):
                 c["bad"] = True
                 c["pos"], c["kw"] = rand_bad_written(rng, fni, n)
             else:
-                c["pos"], c["kw"] = rand_written(rng, fni, n)
-        if mag and "bad" not in c and not (route == "direct" and int_storable(c["data"], "int64") and rng.random() < 0.3):
+                force = None
+                if udtype and fni != "center" and rng.random() < 0.6:
+                    force = dict(center=False if rng.random() < 0.5 else unsigned_center(rng, c["data"]))
+                    if rng.random() < 0.7:
+                        force["rescale" if fni == "standardize" else "scale"] = True
+                c["pos"], c["kw"] = rand_written(rng, fni, n, force)
+        if mag and not udtype and "bad" not in c and not (route == "direct" and int_storable(c["data"], "int64") and rng.random() < 0.3):
             e = mag if (i == 0 or rng.random() < 0.7) else rng.choice(MAG_EXPONENTS + [0])
             c["data"] = shift_mag(c["data"], e)
         if route == "direct":
-            boxed(rng, c, c["data"])
+            boxed(rng, c, c["data"], dtype=udtype)
         calls.append(c)
     state = {}
     if route == "direct" and rng.random() < 0.15:  # pre-seeded (possibly partial) state
@@ -405,10 +498,25 @@ def gen_scale(rng):
         if rng.random() < 0.6:
             state["scale"] = rng.choice([None, fr(Fraction(rng.randint(1, 9), 2)), fr(0)])
     case = dict(kind="scale", route=route, state=state, calls=calls, mag=mag)
+    if route == "formula" and (ustore or rng.random() < 0.5):
+        # the arguments written in the formula (the same text is evaluated again on the follow-up data)
+        n = len(calls[0]["data"])
+        force = None
+        if ustore and fn != "center" and rng.random() < 0.7:
+            force = dict(center=False if rng.random() < 0.5 else unsigned_center(rng, calls[0]["data"]))
+        pos, kw = rand_written(rng, fn, n, force)
+        tame = lambda a: fr(2) if a in (fr(n), fr(n + 1)) else a  # noqa: E731  (all-NaN columns are dropped rows)
+        pos = [tame(a) for a in pos]
+        kw = [[k, tame(a)] for k, a in kw]
+        for cc in calls:
+            cc["pos"], cc["kw"] = list(pos), [list(k) for k in kw]
     if route == "formula":
         case["frame"] = rng.choice(["pandas", "pandas", "arrow"])
-        if all(int_storable(cc["data"], "int64") for cc in calls) and rng.random() < 0.5:
-            case["dtype"] = "int64"
+        fits = [d for d in INT_TYPES if all(int_storable(cc["data"], d) for cc in calls)]
+        if ustore:
+            case["dtype"] = ustore
+        elif fits and rng.random() < 0.5:
+            case["dtype"] = rng.choice(fits)
     return case
 
 
@@ -480,28 +588,52 @@ def boxed_poly(rng, call):
     call["container"] = kind
     dtypes = ["float64", "float64"]
     if all(v is not None for v in vec):
-        dtypes += [d for d in ("int64", "int32") if int_storable(vec, d)]
-    call["dtype"] = rng.choice(dtypes)
+        dtypes += [d for d in INT_TYPES if int_storable(vec, d)]
+    call["dtype"] = call.pop("store", None) or rng.choice(dtypes)
 
 
 def gen_poly(rng):
     degree = rng.choice([0, 1, 1, 2, 2, 3, 3, 4, 5, 6])
     raw = rng.random() < 0.2
+    # unsigned / logical storage holding numbers that need the full width: integer powers taken IN the type would wrap
+    # around (raw basis), the orthogonal basis is computed from the numbers (wide types: degree <= 3, as for the
+    # magnitudes 2^e below)
+    ustore = rng.choice(UNSIGNED + UNSIGNED + ["bool"]) if rng.random() < 0.15 else None
+    if ustore:
+        raw = rng.random() < 0.6
+        if ustore in ("uint32", "uint64") and not raw:
+            degree = min(degree, 3)
+
+    def uvec(n):
+        return unsigned_vector(rng, n, ustore, ("rand", "rand", "top", "steps") + (("ends",) if raw else ()))
+
     if degree >= 1 and rng.random() < 0.15:
         # through a formula: fit with model_matrix, replay with model_spec.get_model_matrix (same degree, no NaN)
         def vec():
+            if ustore:
+                return uvec(rng.choice([2, 3, 4, 5, 6, 8, 12, 20, 30]))
             return [v for v in rand_poly_vector(rng, degree=degree) if v is not None]
         c = dict(kind="poly", route="formula",
                  calls=[dict(x=vec(), degree=degree, raw=raw), dict(x=vec(), degree=degree, raw=raw)])
-        if all(int_storable(cc["x"], "int64") for cc in c["calls"]) and rng.random() < 0.5:
-            c["dtype"] = "int64"  # an integer column of the data frame
+        fits = [d for d in INT_TYPES if all(int_storable(cc["x"], d) for cc in c["calls"])]
+        if ustore:
+            c["dtype"] = ustore
+        elif fits and rng.random() < 0.5:
+            c["dtype"] = rng.choice(fits)  # an integer column of the data frame
         c["frame"] = rng.choice(["pandas", "pandas", "arrow"])
         return c
-    calls = [dict(x=rand_poly_vector(rng, degree=degree), degree=degree, raw=raw)]
+    calls = [dict(x=uvec(len(rand_poly_vector(rng, degree=degree))) if ustore else rand_poly_vector(rng, degree=degree),
+                  degree=degree, raw=raw)]
     for _ in range(rng.choice([0, 1, 1, 2])):
         d2 = rng.choice([degree, degree, degree, max(0, degree - 1), degree + 1])
-        calls.append(dict(x=rand_poly_vector(rng, degree=max(degree, d2)), degree=d2, raw=raw))
-    if max(cc["degree"] for cc in calls) <= 3 and rng.random() < 0.25:
+        if ustore and rng.random() < 0.7:
+            calls.append(dict(x=uvec(rng.choice([2, 3, 4, 6, 12])), degree=d2, raw=raw))
+        else:
+            calls.append(dict(x=rand_poly_vector(rng, degree=max(degree, d2)), degree=d2, raw=raw))
+    for cc in calls:
+        if ustore and int_storable([v for v in cc["x"] if v is not None], ustore) and None not in cc["x"]:
+            cc["store"] = ustore
+    if not ustore and max(cc["degree"] for cc in calls) <= 3 and rng.random() < 0.25:
         # "any magnitude": the whole history times 2^e (exact in binary floating point; alpha scales with 2^e,
         # norms2[k] with 2^(2ek), the orthonormal columns not at all)
         e = rng.choice([-30, -20, -10, 10, 20, 30])
@@ -555,16 +687,66 @@ def _lit(a):
     return repr(a) if isinstance(a, bool) else repr(_num(a))
 
 
-def ref_inner(c):
-    """the call expression itself, e.g. `T.scale(x, center=False, ddof=0)` (also the key the state is recorded under)"""
+# --- the NAME of the data column the transform is applied to.  Anything but a plain identifier is written between
+# --- back-quotes; the library then evaluates the code with a stand-in identifier that it chooses by looking at the
+# --- other names in the data / context.  "All follow-up vectors" makes no exception for what the column is called,
+# --- nor for what ELSE the follow-up data set contains.
+VAR_NAMES = {
+    # Python keywords (`str.isidentifier` says yes, the parser says no)
+    "keyword": ["class", "if", "for", "lambda", "None", "True", "import", "is", "not", "with", "in", "def"],
+    # identifiers that Python's parser would rename (NFKC normalisation changes them)
+    "unstable": ["\ufb01", "\u00aab", "\uff58", "\u212b", "\u210c", "x\u00b2", "\ufb01_1", "\u2160x"],
+    # no identifiers at all
+    "nonident": ["a b", "1x", "a-b", "my.var", "x y z", "\u00e9 t", "x ", "a+b", "class if", "\u20ac", "2", "a  b", "if "],
+    # identifiers used as they are (controls)
+    "plain": ["\u00e9t\u00e9", "x_1", "_x", "X", "class_", "a_b"],
+}
+
+
+def var_usable_as_is(name):
+    """an identifier Python's parser reads back unchanged"""
+    return name.isidentifier() and not keyword.iskeyword(name) and unicodedata.normalize("NFKC", name) == name
+
+
+def alias_like(name):
+    """column names that look like the stand-ins a sanitiser may pick for `name` at fit or replay time (ASCII word
+    characters kept, the rest `_`, numeric suffixes, leading / trailing underscore, the NFKC form)"""
+    base = "".join(ch if re.match(r"\w", ch, re.ASCII) else "_" for ch in name)
+    if not base or base[0].isdigit():
+        base = "_" + base
+    cands = [base, f"{base}_1", f"{base}_1", f"{base}_2", f"{base}_3", f"_{base}", f"{base}_",
+             unicodedata.normalize("NFKC", name), f"_formulaic_{base}"]
+    out = []
+    for cnd in cands:
+        if cnd != name and cnd not in out:
+            out.append(cnd)
+    return out
+
+
+def ref_var(c):
+    """the data argument as it is written in the expression"""
+    var = c.get("var")
+    return "x" if var is None else f"`{var}`"
+
+
+def ref_key_var(c):
+    """the data argument as it appears in the key of the transform state: the code as the user wrote it, in the
+    unparser's normal form (a name that needs no quoting loses its back-quotes)"""
+    var = c.get("var")
+    return "x" if var is None else (var if var_usable_as_is(var) else f"`{var}`")
+
+
+def ref_inner(c, key=False):
+    """the call expression itself, e.g. `T.scale(x, center=False, ddof=0)` (`key`: as the state is recorded under)"""
     c0 = c["calls"][0]
+    x = ref_key_var(c) if key else ref_var(c)
     if c["kind"] == "poly":
         callee = ref_callee(c["form"], "poly")
-        return f"{callee}(x, {c0['degree']}, raw=True)" if c0["raw"] else f"{callee}(x, {c0['degree']})"
+        return f"{callee}({x}, {c0['degree']}, raw=True)" if c0["raw"] else f"{callee}({x}, {c0['degree']})"
     callee = ref_callee(c["form"], c0["fn"])
     pos, kws = written(c0)
     args = "".join(f", {_lit(a)}" for a in pos) + "".join(f", {k}={_lit(a)}" for k, a in kws)
-    return f"{callee}(x{args})"
+    return f"{callee}({x}{args})"
 
 
 def ref_expr(c, python=False):
@@ -585,20 +767,40 @@ def gen_ref(rng):
     where = dict(route="ref", form=rng.choice(REF_FORMS), pos=rng.choice(REF_POSITIONS), entry=rng.choice(REF_ENTRIES),
                  output=rng.choice(["pandas", "numpy"]))
     nfollow = rng.choice([1, 1, 2])
+    # the column's name: 45% something that must be back-quoted, with unused columns named like its possible
+    # stand-ins in the fitting and / or the follow-up data sets
+    if rng.random() < 0.45:
+        where["var"] = var = rng.choice(VAR_NAMES[rng.choice(["keyword", "keyword", "unstable", "unstable", "nonident", "nonident", "plain"])])
+        like = alias_like(var)
+        where["extra"] = [rng.sample(like, rng.choice([1, 1, 2, 3])) if rng.random() < (0.3 if i == 0 else 0.85) else []
+                          for i in range(1 + nfollow)]
+    # the column's storage type: 20% unsigned / logical, holding numbers that need the full width
+    store = rng.choice(UNSIGNED + UNSIGNED + ["bool"]) if rng.random() < 0.2 else None
+    if store:
+        where["dtype"] = store
     if fn == "poly":
         degree = rng.choice([1, 2, 2, 3, 3, 4, 5])
-        raw = rng.random() < 0.1
+        raw = rng.random() < (0.5 if store else 0.1)
+        if store in ("uint32", "uint64") and not raw:
+            degree = min(degree, 3)
 
         def vec():
+            if store:
+                return unsigned_vector(rng, rng.choice([2, 3, 4, 5, 6, 8, 12, 20, 30]), store,
+                                       ("rand", "rand", "top", "steps") + (("ends",) if raw else ()))
             return [v for v in rand_poly_vector(rng, degree=degree) if v is not None]
 
         return dict(kind="poly", calls=[dict(x=vec(), degree=degree, raw=raw) for _ in range(1 + nfollow)], **where)
-    mag = rng.choice(MAG_EXPONENTS) if rng.random() < 0.3 else 0
+    mag = rng.choice(MAG_EXPONENTS) if (rng.random() < 0.3 and not store) else 0
     first = rand_vector(rng, kind=rng.choice(["small", "big", "dyadic", "offset", "two", "const"] if rng.random() < 0.1
                                              else ["small", "big", "dyadic", "offset"]))
+    if store:
+        first = unsigned_vector(rng, len(first), store)
     args = {}
     if fn != "center":  # the same written arguments are evaluated again on every follow-up data set
-        if rng.random() < 0.5:
+        if store and rng.random() < 0.6:
+            args["center"] = False if rng.random() < 0.5 else unsigned_center(rng, first)
+        elif rng.random() < 0.5:
             args["center"] = rand_arg(rng)
         if rng.random() < 0.5:
             args["scale"] = rand_arg(rng)
@@ -613,10 +815,12 @@ def gen_ref(rng):
         while npos < len(named) and named[npos][0] == params[npos]:
             npos += 1
     # the data as a one-column scipy.sparse matrix (scale.py dispatches on it) where the entry point takes any object
-    sparse = where["entry"] == "stateful_eval" and where["pos"] in ("top", "I") and rng.random() < 0.5
+    sparse = where["entry"] == "stateful_eval" and where["pos"] in ("top", "I") and rng.random() < 0.5 and not store
     calls = []
     for i in range(1 + nfollow):
         data = first if i == 0 else rand_vector(rng, kind=rng.choice(["small", "big", "dyadic"]))
+        if store and i > 0:
+            data = unsigned_vector(rng, len(data), store)
         if mag:
             data = shift_mag(data, mag if (i == 0 or rng.random() < 0.7) else rng.choice(MAG_EXPONENTS + [0]))
         call = dict(fn=fn, data=data, pos=[v for _, v in named[:npos]], kw=[list(k) for k in named[npos:]])
@@ -626,7 +830,14 @@ def gen_ref(rng):
     return dict(kind="scale", state={}, calls=calls, mag=mag, **where)
 
 
-INT_RANGE = {"int64": (-(2 ** 63), 2 ** 63 - 1), "int32": (-(2 ** 31), 2 ** 31 - 1)}
+INT_RANGE = {"int64": (-(2 ** 63), 2 ** 63 - 1), "int32": (-(2 ** 31), 2 ** 31 - 1),
+             "uint8": (0, 2 ** 8 - 1), "uint16": (0, 2 ** 16 - 1), "uint32": (0, 2 ** 32 - 1), "uint64": (0, 2 ** 64 - 1),
+             "bool": (0, 1)}
+# the storage types whose arithmetic is modular / logical rather than that of the numbers they hold
+SIGNED = ["int64", "int32"]
+UNSIGNED = ["uint8", "uint16", "uint32", "uint64"]
+WIDTH = {"uint8": 8, "uint16": 16, "uint32": 32, "uint64": 64}
+INT_TYPES = SIGNED + UNSIGNED + ["bool"]
 
 
 def elem_probe_indices(name, dtype):
@@ -767,13 +978,25 @@ def describe(c):
         return f"I:{c['box']}"
     if c.get("route") == "ref":
         fn = "poly" if c["kind"] == "poly" else c["calls"][0]["fn"]
-        return f"ref:{fn}:{c['form']}:{c['pos']}:{c['entry']}"
+        tag = ""
+        if c.get("var"):
+            kind = next((k for k, names in VAR_NAMES.items() if c["var"] in names), "other")
+            tag += f":name={kind}{'+unused' if any(c.get('extra') or []) else ''}"
+        if c.get("dtype"):
+            tag += f":{c['dtype']}"
+        return f"ref:{fn}:{c['entry']}{tag}" if tag else f"ref:{fn}:{c['form']}:{c['pos']}:{c['entry']}"
     if c["kind"] == "scale":
         c0 = c["calls"][0]
         m = c.get("mag", 0)
+        store = c.get("dtype") or c0.get("dtype")
+        if store in UNSIGNED or store == "bool":
+            return f"scale:{c0['fn']}:{c['route']}:{store}:centre={'mean' if (effective(c0) or {}).get('center') is True else 'other'}"
         return f"scale:{c0['fn']}:{c['route']}:calls={len(c['calls'])}:pre={len(c['state'])}:mag={'tiny' if m < 0 else 'huge' if m > 0 else 'unit'}"
     if c["kind"] == "poly":
         c0 = c["calls"][0]
+        store = c.get("dtype") or c0.get("dtype")
+        if store in UNSIGNED or store == "bool":
+            return f"poly:{c.get('route', 'direct')}:{store}:raw={int(c0['raw'])}"
         return f"poly:{c.get('route', 'direct')}:d={c0['degree']}:raw={int(c0['raw'])}:nan={int(any(v is None for v in c0['x']))}:calls={len(c['calls'])}"
     return f"{c['kind']}:{c['name']}:{c.get('dtype', 'float64')}"
 
@@ -856,20 +1079,31 @@ def _ref_run(c, vectors):
     LIBRARY recorded (the harness passes no `_state`); yields (values, transform-state mapping) per data set"""
     ctx = _ref_context()
     entry = c["entry"]
+    var = c.get("var") or "x"
+    dtype = c.get("dtype", "float64")
+    extras = c.get("extra") or [[] for _ in vectors]
+
+    def column(v):
+        return numpy.array(v, dtype=numpy.float64).astype(dtype) if dtype != "float64" else numpy.array(v, dtype=numpy.float64)
+
+    def unused(i, n):
+        """the unused columns of data set i: numbers that are not the data"""
+        return {nm: numpy.full(n, 1000.0 + 7 * j) + numpy.arange(n) for j, nm in enumerate(extras[i])}
+
     if entry == "stateful_eval":
         from formulaic.transforms import TRANSFORMS
         from formulaic.utils.stateful_transforms import stateful_eval
 
         state = {}
-        for call, v in zip(c["calls"], vectors):
-            x = make_container(call, call["data"]) if call.get("container") == "sparse" else pandas.Series(v)
-            env = {**TRANSFORMS, **ctx, "x": x}
+        for i, (call, v) in enumerate(zip(c["calls"], vectors)):
+            x = make_container(call, call["data"]) if call.get("container") == "sparse" else pandas.Series(column(v))
+            env = {**TRANSFORMS, **ctx, **{k: pandas.Series(u) for k, u in unused(i, len(v)).items()}, var: x}
             yield stateful_eval(ref_expr(c, python=True), env, None, state, None), state
         return
     from formulaic import Formula, model_matrix
 
     formula = "0 + " + ref_expr(c)
-    frames = [pandas.DataFrame({"x": v}) for v in vectors]
+    frames = [pandas.DataFrame({var: column(v), **unused(i, len(v))}) for i, v in enumerate(vectors)]
     kw = dict(output=c["output"], na_action="ignore")
     if entry == "sugar_frame":
         yield from _ref_sugar_frame(ctx, formula, frames, kw)
@@ -886,12 +1120,65 @@ def _ref_run(c, vectors):
 
 def _ref_state(tstate, c):
     """the state recorded for the call: under its own text; failing that the only entry there is"""
-    key = ref_inner(c)
+    key = ref_inner(c, key=True)
     if key in tstate:
         return tstate[key]
     if len(tstate) == 1:
         return next(iter(tstate.values()))
     return {}
+
+
+def ref_env_names(c, i):
+    """the names the expression is evaluated among on data set i: the columns, the context, the preloaded transforms"""
+    from formulaic.transforms import TRANSFORMS
+
+    cols = [c.get("var") or "x"] + list((c.get("extra") or [[]] * len(c["calls"]))[i])
+    return cols + sorted(_ref_context()) + list(TRANSFORMS)
+
+
+SENTINEL = "verif_standin_of_the_column"
+
+
+def ref_key_request(c):
+    """what `Model.TransformKey.stateKey` needs for the call of a `ref` case with a back-quoted column: the text of
+    the factor, the column's name, CPython's parameters (the unparsed call node around the stand-in, the verdict of
+    `str.isidentifier` + NFKC on the name, the non-ASCII `\\w` characters), and the environment of each data set.
+    The contract of the unparser parameter (theorem `state_key_of_call`: the stand-in stands between non-word
+    characters and the unparser prints no word the source does not have) is checked here."""
+    import ast
+
+    var = c["var"]
+    inner = ref_inner(c)
+    quoted = f"`{var}`"
+    assert inner.count(quoted) == 1
+    text = ast.unparse(ast.parse(inner.replace(quoted, SENTINEL), mode="eval")).replace("\n", " ")
+    assert text.count(SENTINEL) == 1
+    pre, post = text.split(SENTINEL)
+    src_pre, src_post = ref_expr(c, python=True).split(quoted)
+    assert (not pre or not re.match(r"\w", pre[-1])) and (not post or not re.match(r"\w", post[0]))
+    assert set(re.findall(r"\w+", pre + " " + post)) <= set(re.findall(r"\w+", src_pre + " " + src_post, re.ASCII))
+    ident = [var] if (var.isidentifier() and unicodedata.normalize("NFKC", var) == var) else []
+    wordchars = "".join(sorted({ch for ch in pre + post + var if ord(ch) > 127 and re.match(r"\w", ch)}))
+    return dict(expr=ref_expr(c, python=True), name=var, pre=pre, post=post, ident=ident, wordchars=wordchars,
+                envs=[ref_env_names(c, i) for i in range(len(c["calls"]))])
+
+
+def agree_ref_keys(c, o, m):
+    """the key the library recorded the state under, on every data set of the history, against the model"""
+    if c.get("route") != "ref" or not c.get("var"):
+        return None
+    mk = m.get("keys")
+    if mk is None:
+        return "the model returned no transform-state keys"
+    for i, obs in enumerate(o.get("calls", [])):
+        if "keys" not in obs or i >= len(mk):
+            continue
+        if "key" not in mk[i]:
+            return f"data set {i}: the model has no key for the call ({mk[i]})"
+        if obs["keys"] != [mk[i]["key"]]:
+            return (f"data set {i} (columns {ref_env_names(c, i)[:1 + len((c.get('extra') or [[]] * 9)[i])]}): the transform "
+                    f"state is kept under {obs['keys']}, the model's key is {[mk[i]['key']]}")
+    return None
 
 
 def impl_scale_ref(c):
@@ -900,7 +1187,7 @@ def impl_scale_ref(c):
         for vals, tstate in _ref_run(c, [[fl(v) for v in call["data"]] for call in c["calls"]]):
             arr = numpy.asarray(vals, dtype=float)
             obs = dict(out=[jf(v) for v in (arr[:, 0] if arr.ndim == 2 else arr)],
-                       state=_scale_state_obs(dict(_ref_state(tstate, c))))
+                       state=_scale_state_obs(dict(_ref_state(tstate, c))), keys=list(tstate))
             if arr.ndim == 2 and arr.shape[1] != 1:
                 obs["ncols"] = arr.shape[1]
             res.append(obs)
@@ -912,6 +1199,7 @@ def impl_poly_ref(c):
     with numpy.errstate(all="ignore"):
         for call, (vals, tstate) in zip(c["calls"], _ref_run(c, [[fl(v) for v in call["x"]] for call in c["calls"]])):
             res.append(_poly_obs(vals, dict(_ref_state(tstate, c)), len(call["x"]), call["degree"]))
+            res[-1]["keys"] = list(tstate)
     return dict(calls=res)
 
 
@@ -925,13 +1213,18 @@ def impl_scale(c):
         from formulaic import model_matrix
 
         fn = c["calls"][0]["fn"]
-        expr = f"{fn}(x)"
+        pos, kws = written(c["calls"][0])
+        expr = f"{fn}(x" + "".join(f", {_lit(a)}" for a in pos) + "".join(f", {k}={_lit(a)}" for k, a in kws) + ")"
+
+        def recorded(tstate):
+            return dict(tstate[expr] if expr in tstate else (next(iter(tstate.values())) if len(tstate) == 1 else {}))
+
         with numpy.errstate(all="ignore"):
             mm = model_matrix("0 + " + expr, make_frame(c, c["calls"][0]["data"]))
             spec = mm.model_spec
-            res.append(dict(out=[jf(v) for v in as_matrix(mm)[:, 0]], state=_scale_state_obs(spec.transform_state[expr])))
+            res.append(dict(out=[jf(v) for v in as_matrix(mm)[:, 0]], state=_scale_state_obs(recorded(spec.transform_state))))
             m2 = spec.get_model_matrix(make_frame(c, c["calls"][1]["data"]))
-            res.append(dict(out=[jf(v) for v in as_matrix(m2)[:, 0]], state=_scale_state_obs(spec.transform_state[expr])))
+            res.append(dict(out=[jf(v) for v in as_matrix(m2)[:, 0]], state=_scale_state_obs(recorded(spec.transform_state))))
         return dict(calls=res)
     st = {}
     for k, v in c["state"].items():
@@ -968,7 +1261,9 @@ def make_container(call, vec, nan_ok=False):
         vals = [Fraction(v).numerator for v in vec]
         arr = numpy.array(vals, dtype=dtype)
     if kind == "list":
-        return vals
+        # a list keeps the storage type only through its elements: numpy scalars for the unsigned / logical types
+        # (Python integers would be read back as int64 / float64)
+        return list(arr) if dtype in UNSIGNED or dtype == "bool" else vals
     if kind == "series":
         return pandas.Series(arr, index=[3 * i + 2 for i in range(len(vals))])
     if kind == "nwseries":
@@ -1338,7 +1633,10 @@ def request(c, o):
             s = (io.get("state") or {}).get("scale")
             r["sqrt"] = fr(s) if isinstance(s, (int, float)) else None
             calls.append(r)
-        return dict(op="scale", state=c["state"], calls=calls)
+        req = dict(op="scale", state=c["state"], calls=calls)
+        if c.get("route") == "ref" and c.get("var"):
+            req["keyreq"] = ref_key_request(c)
+        return req
     if c["kind"] == "poly":
         calls = []
         for i, call in enumerate(c["calls"]):
@@ -1348,7 +1646,10 @@ def request(c, o):
             sq = io.get("sqrts") or []
             r["sqrts"] = [fr(s) if isinstance(s, (int, float)) else "0/1" for s in sq]
             calls.append(r)
-        return dict(op="poly", state={}, calls=calls)
+        req = dict(op="poly", state={}, calls=calls)
+        if c.get("route") == "ref" and c.get("var"):
+            req["keyreq"] = ref_key_request(c)
+        return req
     if c["kind"] == "elem":
         return dict(op="elem", name=c["name"], k=c["k"], exact=True)
     return dict(op="elem", name=c["name"], exact=False)
@@ -1563,9 +1864,9 @@ def agree(c, o, m):
             return f"I(x): same object {o.get('same')}, column {o.get('values')} vs model {want}"
         return None
     if c["kind"] == "scale":
-        return agree_scale(c, o, m)
+        return agree_scale(c, o, m) or agree_ref_keys(c, o, m)
     if c["kind"] == "poly":
-        return agree_poly(c, o, m)
+        return agree_poly(c, o, m) or agree_ref_keys(c, o, m)
     if o.get("missing"):
         return f"TRANSFORMS has no entry {c['name']!r} but the model table names it"
     if m.get("denotes") != c["name"]:
@@ -1974,13 +2275,17 @@ def classify(c, o, why):
 
 
 LEVEL_TEXT = (
-    "Proof: 35 Lean theorems (Props/C13.lean) about the executable models, stated for ALL vectors, lengths, flags, "
+    "Proof: 37 Lean theorems (Props/C13.lean) about the executable models, stated for ALL vectors, lengths, flags, "
     "ddof, degrees, states and follow-up vectors over an arbitrary field (and over the reals with Real.sqrt). "
     "scale/center/standardize: zero mean, unit standard deviation (about the mean, or about the chosen centre for "
     "center=False/number), recorded statistics re-applied and never refitted - also through the entry points as a "
     "caller reaches them (Model/ScaleEntry.lean: argument binding against the LIVE signatures incl. the defaults "
     "ddof=1 / ddof=0 / keyword `rescale`, center = scale(scale=False), the singledispatch branch for scipy.sparse "
-    "with its ValueError), with any of the three names on the follow-up call. poly: general three-term-recurrence "
+    "with its ValueError), with any of the three names on the follow-up call. The key under which the library keeps "
+    "the statistics of `f(`name`, ...)` is the call as the user wrote it (name back-quoted unless Python reads it back "
+    "unchanged) for ANY column name and ANY other names in the data / context - the stand-in identifier does depend on "
+    "them, the key does not (Model/TransformKey.lean over C15's sanitiser model; state_key_of_call, "
+    "state_key_ignores_other_columns). poly: general three-term-recurrence "
     "orthogonality and its instance (orthonormal, orthogonal to 1), monic degree-k polynomials; the RETURNED normalised "
     "columns together with the constant span the raw powers for every degree; raw=True is exactly the raw powers for "
     "every degree (ValueError at 0) and leaves the state alone; a missing value inserted at ANY position changes only "
@@ -1994,8 +2299,10 @@ LEVEL_TEXT = (
     "be 10^x; every one of the 26 preloaded names meets a stated contract (stateful marker for the transforms that "
     "record statistics). Q reads the data layer only; Treatment(r) is treatment coding with base r; I is the identity. "
     "The models are tied to the code by a differential correspondence on every run (every container and storage type "
-    "the library passes); that the state reaches the transform on follow-up data (however the call is spelled, wherever "
-    "it sits in the factor, through each public entry point) is tied by the `ref` stream."
+    "the library passes, incl. unsigned and logical storage whose own arithmetic would wrap around); that the state reaches the transform on follow-up data (however the call is spelled, wherever "
+    "it sits in the factor, through each public entry point, "
+    "whatever the column is called and whatever unused columns the follow-up data carry) is tied by the `ref` stream, which "
+    "also compares the recorded key with the model's on every data set."
 )
 LEVEL_NOTE = (
     "Partial: libm accuracy of exp/log/sqrt and IEEE rounding are observed (exact probes, 1e-12 / 1e-9 tolerances), "
